@@ -267,6 +267,45 @@ def main(argv=None):
                     emit(src, idx, case, run_one(prop, case, CTX))
                     n += 1
                 idx += 1
+        # ---- sizes taken from the numeric constants of the source that is being monitored (rtmon/codeconst.py)
+        from . import codeconst, gen as _gen
+        cc = {"planned": 0, "run": 0, "no_size_drawn": 0, "stopped_early": False}
+        try:
+            cplan = codeconst.plan(repo, a.tier, cap=getattr(prop, "CONST_CAP", 300000))
+        except Exception:
+            cplan = []
+        t_cc = time.time()
+        for ci, (s_, form_, reps_, novel_) in enumerate(cplan):
+            if ci % a.nshards != a.shard:
+                continue
+            crng = random.Random(a.seed * 7919 + s_ * 131 + codeconst.FORMS_SMALL.index(form_))
+            for r_ in range(reps_):
+                cc["planned"] += 1
+                if time.time() - t_cc > 3 * a.budget:
+                    cc["stopped_early"] = True
+                    break
+                _gen.FORCED = {"size": s_, "form": form_, "used": 0}
+                try:
+                    if hasattr(prop, "const_case"):
+                        case = prop.const_case(crng, a.tier, s_, form_)
+                        used = case is not None
+                    else:
+                        case = prop.random_case(crng, a.tier)
+                        used = _gen.FORCED["used"] > 0
+                except Exception:
+                    from .core import Result
+                    emit("codeconst", ci, {"generator-error": True, "size": s_, "form": form_}, Result(INCONCLUSIVE, ["harness-error"], traceback.format_exc(limit=8), False))
+                    continue
+                finally:
+                    _gen.FORCED = None
+                if not used:
+                    cc["no_size_drawn"] += 1
+                    continue
+                res = run_one(prop, case, CTX)
+                res["tags"] = list(res["tags"]) + ["codeconst", "codeconst:" + form_] + (["codeconst:novel"] if novel_ else [])
+                emit("codeconst", ci, case, res)
+                cc["run"] += 1
+                n += 1
         rng = random.Random(a.seed * 1000003 + a.shard)
         total = prop.N_RANDOM.get(a.tier, 0)
         mine = total // a.nshards + (1 if a.shard < total % a.nshards else 0)
@@ -293,6 +332,7 @@ def main(argv=None):
             "cov_on": cov_on, "wall_s": round(time.time() - t0, 2), "probe_alerts": CTX.probe_alerts,
             "lib_file": os.path.realpath(lib.__file__), "other_classes_used_first": warmed}
     if not a.replay:
+        summ["codeconst"] = cc
         summ["random_planned"] = mine
         summ["random_done"] = done
         summ["stopped_early"] = stopped_early
